@@ -271,8 +271,8 @@ func (s *StatsCtx) Close() (err error) {
 // Update implements the [Interface] interface for *StatsCtx.  e must not be
 // nil.
 func (s *StatsCtx) Update(e *Entry) {
-	s.confMu.Lock()
-	defer s.confMu.Unlock()
+	s.confMu.RLock()
+	defer s.confMu.RUnlock()
 
 	if !s.enabled || s.limit == 0 {
 		return
